@@ -66,10 +66,7 @@ claim('C09',
       'Lean 4 proofs over an executable model mirroring ec_util.py/util.py + differential correspondence with the Python implementation',
       'DESIGN.md section 5 C09')
 
-NOT_CLAIMED['C06'] = ('EC half pending (CheckValidECKey / CheckWeakCurve: validKey_iff, weakCurve_iff). RSA half is built and green: Props/C06.lean proves '
-                      'sizes_iff (flagged <-> n < 2^2047), exponent_iff (all byte encodings), hasDlog_iff, roca_iff, rocaVariant_iff, openssl_iff (every digest oracle, every list), '
-                      'keypair_step (every table, every generator oracle), %X formatting lemmas, roca_tuples_spec and the exact acceptance rates; harness/corr/c06.py '
-                      '(correspondence_rsa) is the correspondence; `./check C06` runs it. Shipped keypair table coverage (768 seeds) is a finite data check in the thorough tier.')
+# (C06 is claimed below: both halves are merged)
 
 claim('C20',
       'Lean theorems (Props/C20.lean) over an exact model of every generator class of randomness_tests/rng.py: for every n (no bound), every integer seed '
@@ -266,3 +263,45 @@ draft_claim('C08',
       'DESIGN.md section 5 C08, section 7')
 
 NOT_CLAIMED['C08'] = ('integer-lattice half done; ECDSA check layer (group isolation, marking all signatures of the issuer) pending')
+
+
+claim('C10',
+      'Lean theorems (Props/C10.lean) over the executable model Model/Bsgs.lean of ec_util.EcCurve.BatchDL / ExtendedBatchDL / BatchDLOfDifferences (the mutable attributes _table/_table_size are explicit state; '
+      'the values of int(math.sqrt(.)) are explicit arguments, so nothing depends on floats) and of CheckWeakECPrivateKey / CheckECKeySmallDifference, specification = Mathlib group of the curve through C11\'s toPoint. '
+      'For p prime and a curve object passing the parameter check (all nine named curves by kernel evaluation): '
+      'batchDL_complete — for EVERY state satisfying the table invariant (cached table larger or smaller than requested), every requested table size ts >= 1, every list of on-curve points of any length and every bound n, BatchDL does not raise, '
+      'keeps the invariant, and for every reduced point P = x*G with 0 <= x < n the entry is some v with v*G = P; it is x itself when 2n + (2ts-1) + V <= order (V = number of multiples in the table in use; about 2^34 against 2^190 in the checks). '
+      't = 2*table_size-1 is taken from the REQUESTED size also when a larger cached table is kept, and completeness still holds (superset table). BatchDL([]) raises IndexError for n >= 2 (batchDL_empty_raises; the checks guard with `if not keys`). '
+      'extended_complete — every private key d = i*2^(8j) (i < 2^32, 8j+32 <= bits) or d = i*(2^(32r)-1)/(2^32-1) (2 <= r <= bits//32) is recorded with a value v, v*G = P, v = d (mod n) when n is prime; '
+      'v = int(dlog*multiplier) is NOT reduced (on curves with n < 2^33 it can be d+n; negative values occur); the multiplier list is exactly that of the property (multipliers_spec) and every multiplier is invertible mod n on the nine named curves (named_multipliers_invertible). '
+      'diff_complete — all points finite, reduced, on the curve: every key P for which another key Q of the call (points or other_points) has P != Q, P-Q = k*G, |k| < max(cached table size, max_diff) is flagged, hence both keys of such a pair; diff_identical_not_flagged — a key whose companions are all the same point is not flagged. '
+      'history_invariant / history_monotone — after ANY sequence of the three calls with any arguments and oracle values, _table is {} or exactly PointTable(g, _table_size), _table_size never decreases, and everything BatchDL guarantees from the fresh state it guarantees from that state. '
+      'Check level (checkWeakECPrivateKey_spec, checkECKeySmallDifference_spec): for every batch mixing keys of all curves, unknown and None curve ids, every factory with unique ids: no exception; keys without curve get no result; result <-> info attached; structured keys are flagged with DISCRETE_LOG v, v*G = P, v = d mod n; close keys are both flagged with a true relation naming another key of the same curve. '
+      'driver_model_agree: the hash-map instance run by the native driver returns the same answers as the association-list instance the theorems are about. '
+      'Model tied to /repo by differential correspondence (~57k lines per quick run, 0 divergences): BatchDL exhaustively on a toy curve of prime order 37..61 (every x of the group x every bound 0..order+1 x list lengths 1..12 x states fresh / after-small / after-large obtained from all 16 ordered pairs of earlier BatchDL/BatchDLOfDifferences calls, the dict compared entry by entry and in order), '
+      'sampled on orders 101..1009, named curves at the giant-step boundaries x = j*t +- (ts-1), j*t +- ts, n-1, n, 0, negative logs, bounds up to 2^20, cached-equal/larger/smaller tables; ExtendedBatchDL on supersingular toy curves with 40- and 64-bit prime-order subgroups (thorough: 32..97 bits and three named curves), '
+      'BatchDLOfDifferences on every pair of keys of the toy group x several max_diff x three cached tables; the four EC checks on real protobuf ECKey artefacts with toy curves planted in CURVE_FACTORY. Predicates evaluated on the implementation for every case: recorded log / relation recomputed with an independent affine implementation; planted logs found.',
+      'Hypotheses not proved: primality of p (and of n where "= d mod n" is stated) for the named curves (validated per run by gmpy2.is_prime in C11). Points are assumed reduced (0 <= x,y < p) for completeness: BatchDL compares raw integers, an unreduced representative of x*G is not found (mirrored by the model, shown by the correspondence run). '
+      'NOT asserted: the literal statement "whatever was found from the fresh state is found from every later state" (def history_superset): for an arbitrary PointTable split m the table also holds up to m-1 multiples beyond table_size, which a later table built with another split may lack (kernel-checked counter-example history_superset_fails_for_some_split, for a split the float would not produce and a log outside [0,n)); with the real m = int(sqrt(ts)) the covered range is monotone, a float fact outside the theorems — the harness compares fresh / after-small / after-large answers of the implementation on ~7k exhaustive toy calls per run and reports any loss as a violation. '
+      'Negative logs (-x small) are found by the code (the `elif y[1] == -p[1] % mod` branch) but not promised by the property; a mutation removing that branch is reported as a broken correspondence without failing input. '
+      'The state left behind by a call that raises is not modelled (no call raises on on-curve inputs). Domain n >= 0, max_diff >= 0; INFINITY among the points of BatchDLOfDifferences raises TypeError in code and model (never reached from the checks).',
+      'Lean 4 proof of soundness/completeness of baby-step giant-step over Mathlib\'s elliptic-curve group + state invariant over all call histories + differential correspondence (exhaustive on toy curves) with the Python implementation',
+      'DESIGN.md section 5 C10, C02')
+
+
+claim('C06',
+      'Lean theorems (Props/C06.lean), each an EXACT characterisation, universally quantified over the artefact and (where an oracle is involved) over every oracle answer / supplied list. '
+      'RSA half: sizes_iff (flagged <-> n < 2^2047, every byte encoding), exponent_iff (<-> e != 65537, all encodings incl. leading zeros), hasDlog_iff / roca_iff / rocaVariant_iff '
+      '(the 39-prime loop <-> n is a power of 65537 modulo each of the 39 smallest odd primes; QR tables <-> squares; variant excludes ROCA-positive), openssl_iff (every SHA-1 oracle, every deny list, %X formatting lemmas), '
+      'keypair_step (every table, every generator oracle), roca_tuples_spec and the exact acceptance rates (roca_fp_rate: about 2^-30, not <= 2^-37; variant exactly 2^-48). '
+      'EC half: validKey_iff — for p prime, p != 2, 4a^3+27b^2 != 0 and ANY integer coordinates IsValidPublicKey never raises and is True exactly when 0 <= x,y < p, y^2 = x^3+ax+b (mod p) and (h <= 1 or n*P = infinity in the Mathlib group); '
+      'INFINITY is invalid; with cofactor <= 1 the answer is that closed-form criterion for ANY curve parameters (validKey_iff_cofactor_one). checkValidECKey_iff — for every batch and every factory of cofactor-1 curves CheckValidECKey never raises, '
+      'writes a result for every key, attaches nothing and flags exactly the keys whose curve_type is absent from CURVE_FACTORY or maps to None (unknown and binary-field ids) or whose point is out of range or off the curve; validKeyOne_general adds the subgroup test for cofactor > 1. '
+      'weakCurve_iff — CheckWeakCurve gives NO result to keys of unknown/None curves and flags the others exactly when bit_length(n) < 224, i.e. n < 2^223 (weakCurve_threshold). '
+      'On the factory regenerated from /repo (curve_factory_eq: nine prime-field curves under ids 2,4,1,3,5,6,17,18,19, all of cofactor 1; ids 7..16 -> None), by kernel evaluation: only id 1 = secp192r1 (192-bit order) is flagged, secp224r1 (224 bits) is not (weakCurve_factory). '
+      'Models tied to /repo by differential correspondence: RSA half ~8.4k cases per run (harness/corr/c06.py correspondence_rsa); EC half ~1.7k real protobuf ECKey artefacts per run through CheckValidECKey / CheckWeakCurve for every curve id of the current factory '
+      '(prime-field, binary-field, unknown), boundary coordinates 0, p, p-1, p+x, 2p+x, y+7p, 2^600+x, off-curve, negated, empty byte strings, toy curves of cofactor 2 and 4 planted under real ids (points outside the subgroup), each key in a batch, alone and in shuffled order.',
+      'Trusted: Lean kernel, correspondence harness, protobuf shim. SHA-1 digest and keypair_generator output are oracles recorded at the call site. That the shipped keypair table contains every covered seed is a finite data check by execution (thorough tier: all 768 entries), not a theorem. '
+      'EC half: primality of the field modulus is a hypothesis of validKey_iff (not of the cofactor-1 theorems); no curve of CURVE_FACTORY has a cofactor, so the subgroup test is exercised on toy curves only. The property text "2^-37" for the ROCA false-positive rate is NOT confirmed (see C07).',
+      'Lean 4 proof of exact closed-form characterisations over an executable model + kernel evaluation on regenerated constants + differential correspondence with the Python implementation',
+      'DESIGN.md section 5 C06')
